@@ -1458,8 +1458,8 @@ impl Property for C10 {
             "the only nondeterminism SVC::fit consumes is rand::thread_rng() inside Optimizer::permutate, served by the simulator through the patched rand 0.8.8 copy; the kernel cache is a keyed HashMap lookup and its retain() predicate is order independent".into(),
             "the Counting<K> wrapper delegates to the real kernels; kernel evaluations and the cfg(smartcore_verif) tick in the SMO loops are the logical clock. Non-termination is decided by state-cycle detection (Brent) over the optimizer-state digests the tick hook delivers: the loops are deterministic in that state, so a repeated state proves the loop never exits. A step budget remains only as a fallback for non-repeating livelocks and is far beyond anything observed (4e9 kernel evaluations / ticks for SVC and the svr-hard batch, 5e8 SMO iterations for the regular SVR batches; observed maxima are reported under measured_maxima: ~2e8 kernel evaluations for one f32 cubic-kernel fit in 5e6, 5.9e5 / 2.2e7 SVR iterations)".into(),
             "closed-form kernels and the expansion b + sum w_i K(sv_i, x) are computed independently in the harness from the model's serde image".into(),
-            "tolerances: box 1e-12*C, |sum w| <= 1e-9*C*n, expansion 1e-9 relative (f32: 1e-5, 1e-3, 2e-3); SVR optimality slack = tol + 1e-9*scale (the stopping rule guarantees tol/2)".into(),
-            "SVR workload restricted to the region where SMO converges quickly (n <= 40; RBF with C <= 100; linear and polynomial degree <= 2 with C <= 1, or C = 10 at tol = 1e-2; polynomial only with tol >= 1e-3); slow convergence elsewhere is not judged".into(),
+            "tolerances: box 1e-12*C (f32 1e-5); |sum w| <= 4*eps*(solver updates + rows + 8)*C, i.e. two roundings per update judged with 4x; expansion 1e-9 relative (f32 2e-3); SVR optimality slack = tol + 1e-9*scale (the stopping rule guarantees tol/2), a coefficient counts as 'at the bound' only within 4 ulp of C, residual signs are checked against coefficient signs; the label rule is also probed on points bisected onto the decision boundary".into(),
+            "SVR workload restricted to the region where SMO converges quickly (n <= 40; RBF with C <= 100; linear and polynomial degree <= 2 with C <= 1, or C = 10 at tol = 1e-2; polynomial only with tol >= 1e-3); slow convergence elsewhere is not judged; the svr-hard, svr-hard-tight and svr-marathon batches leave that region deliberately with fits that are known to converge (up to ~1e8 updates in the quick tier, several 1e9 in the thorough tier)".into(),
             "sampling, not enumeration, beyond n = 5: a clean batch is evidence, not proof".into(),
         ]
     }
